@@ -175,10 +175,10 @@ func ValidatePrime(p *saferith.Nat) error {
 		return ErrNotBlum
 	}
 
-	// check (p-1)/2 is prime
+	// check p and (p-1)/2 are prime
 	pMinus1Div2 := new(saferith.Nat).Rsh(p, 1, -1)
 
-	if !pMinus1Div2.Big().ProbablyPrime(1) {
+	if !p.Big().ProbablyPrime(1) || !pMinus1Div2.Big().ProbablyPrime(1) {
 		return ErrNotSafePrime
 	}
 	return nil
